@@ -748,10 +748,16 @@ def case_csv(run: Run, rng):
             got = back.get(k)
             if got is None and all(math.isnan(cols[k][i]) for i in order):
                 continue
-            if got is None or any(not (float(g) == cols[k][i] or (math.isnan(float(g)) and math.isnan(cols[k][i])))
-                                  for g, i in zip(got, order)):
+            same = lambda g, w: float(g) == w or (math.isnan(float(g)) and math.isnan(w))
+            close = lambda g, w: same(g, w) or abs(float(g) - w) <= 4 * abs(w) * 2.0 ** -52
+            if got is None or any(not close(g, cols[k][i]) for g, i in zip(got, order)):
                 ctx.violate("csv_:readback-values", f"column {k} (default format): wrote {[cols[k][i] for i in order][:4]} read "
                             f"{None if got is None else list(got)[:4]}", case)
+                return
+            off = [(cols[k][i], float(g)) for g, i in zip(got, order) if not same(g, cols[k][i])]
+            if off:
+                ctx.violate("csv_:readback-last-digit", f"column {k} (default format prints the shortest repr of the double): wrote "
+                            f"{off[0][0]!r}, the csv_ parser returns the neighbouring double {off[0][1]!r}", case)
                 return
         elif f == "s":
             got = [str(x) for x in back.get(k, [])]
